@@ -70,17 +70,17 @@ type Violation struct {
 
 // Report is what one worker hands back to the driver.
 type Report struct {
-	Shard        int              `json:"shard"`
-	Evaluations  int64            `json:"evaluations"`
-	Nontrivial   int64            `json:"nontrivial"`
-	Counters     map[string]int64 `json:"counters"`
-	Samples      []any            `json:"samples"`
-	Violations   []Violation      `json:"violations"`
-	Known        map[string]int64 `json:"known"`
+	Shard        int               `json:"shard"`
+	Evaluations  int64             `json:"evaluations"`
+	Nontrivial   int64             `json:"nontrivial"`
+	Counters     map[string]int64  `json:"counters"`
+	Samples      []any             `json:"samples"`
+	Violations   []Violation       `json:"violations"`
+	Known        map[string]int64  `json:"known"`
 	KnownDetail  map[string]string `json:"known_detail"`
-	Inconclusive map[string]int64 `json:"inconclusive"`
-	Notes        []string         `json:"notes"`
-	Done         bool             `json:"done"`
+	Inconclusive map[string]int64  `json:"inconclusive"`
+	Notes        []string          `json:"notes"`
+	Done         bool              `json:"done"`
 }
 
 // Ctx is the per-worker context.
